@@ -32,7 +32,13 @@ RULE = ("cases = corpus (witnesses of F-C16a/F-C16b and corner cases) + a system
         "filter/filter_tracked x1 and x51/auto_tune/clear), 20% beta (add/remove/lookup by value and by raw text), 20% memo (1-3 nodes "
         "over ==/!=/And/Or/Not, fact sets whose as_str() text coincides but types differ, evaluate/clear), 20% conclusion index "
         "(add_rule/remove_rule/find_candidates/clear over 3 names, enabled and disabled, Set/MethodCall/Retract/SetWorkflowData/Log), "
-        "10% BackwardEngine (kb add/remove/enable, rebuild_index, re-creation; index_stats). Each case runs on the real components "
+        "10% BackwardEngine (kb add/remove/enable, rebuild_index, re-creation; index_stats) + a hot-join-key family (N/50, at least 20 "
+        "histories: 33..140 adds under one or two keys in ascending / descending / shuffled index order, some indices twice, then removals "
+        "in random order with a lookup after each, re-adds under the old index, second removals, removals under the other key, draining a "
+        "key) + a nested-array memo family (a third of the memo histories, and systematically every ordered pair of four fixed groups: "
+        "fact sets that differ only in the GROUPING of a nested array with the same leaves, [[1],2] / [[1,2]], [[],[]] / [[[]]], random "
+        "regroupings of one pre-order token sequence, under nodes whose verdict depends on the grouping: UlMultiField count with every "
+        "operator / empty / not_empty / first / last / collect, alpha contains, == / != / contains against another field). Each case runs on the real components "
         "in-process and on the Lean model; observations are diffed; the Spec oracle compares the implementation's answers with the "
         "harness' own plain computation (== scan / live list / evaluate_typed / rule scan) and with the plain computation of the Lean "
         "Spec from the case alone. Non-trivial = the shortcut was really taken and mattered: a filter answered non-empty through an "
@@ -50,7 +56,7 @@ TRUSTED = [
 ]
 ASSUMPTIONS = [
     "TypedFacts is represented by its association list with fields in sorted order (the order compute_facts_hash sorts into)",
-    "memo: the evaluation closure is a pure function of (node, facts) — ReteUlNode::evaluate_typed in the harness; the correspondence drives the ==/!=/And/Or/Not fragment with simple field names",
+    "memo: the evaluation closure is a pure function of (node, facts) — ReteUlNode::evaluate_typed in the harness; the correspondence drives the ==/!=/contains alpha tests (literal or other field), the array-only UlMultiField operations (count/empty/not_empty/first/last/collect) and And/Or/Not, with simple field names",
     "conclusion index: goal patterns and field names are ASCII (byte and char offsets coincide); rule set semantics = latest add per name, remove deletes",
     "beta: strings in join values are printable ASCII (Debug escapes only \\\" and \\\\ there)",
 ]
